@@ -16,12 +16,23 @@ EXTENDS RigoMon, Json, TLC
 
 TraceLog == ndJsonDeserialize("trace.ndjson")
 
-VARIABLES l, pre, mon, viol, seen
-tvars == <<l, pre, mon, viol, seen>>
+VARIABLES l, pre, mon, viol, seen, miss
+tvars == <<l, pre, mon, viol, seen, miss>>
+
+\* miss: validator -> set of heights it did not sign while its delegatee record existed (see RigoProps!C14True)
+NoMiss == [x \in {} |-> {}]
+MissAfter(e, old) ==
+  IF e.ev = "BeginBlock" /\ "post" \in DOMAIN e THEN
+     LET absent == {e.votes[i].v : i \in {j \in 1..Len(e.votes) : ~e.votes[j].signed}}
+         keep == DOMAIN e.post.delegs
+     IN [v \in keep |-> (IF v \in DOMAIN old THEN old[v] ELSE {}) \cup (IF v \in absent THEN {e.post.h - 1} ELSE {})]
+  \* a record that disappears (released, jailed) takes its history with it, also in the middle of a block
+  ELSE IF "post" \in DOMAIN e /\ "delegs" \in DOMAIN e.post THEN [v \in DOMAIN old \cap DOMAIN e.post.delegs |-> old[v]]
+  ELSE old
 
 NoState == [h |-> 0]
 
-TraceInit == l = 1 /\ pre = NoState /\ mon = InitMon /\ viol = <<>> /\ seen = {}
+TraceInit == l = 1 /\ pre = NoState /\ mon = InitMon /\ viol = <<>> /\ seen = {} /\ miss = NoMiss
 
 HasPost(e) == "post" \in DOMAIN e
 
@@ -42,7 +53,7 @@ TraceNext ==
            /\ mon' = [mon EXCEPT !.dead = TRUE]
            /\ pre' = pre
         ELSE IF e.ev \in StateEvents /\ HasPost(e) THEN
-           /\ viol' = Record(e, Checks(e, pre, e.post, mon) \cup C09(e))
+           /\ viol' = Record(e, Checks(e, pre, e.post, mon) \cup C14True(e, pre, e.post, miss) \cup C09(e))
            /\ mon' = NextMon(e, pre, e.post, mon)
            /\ pre' = e.post
         ELSE IF e.ev = "Query" THEN
@@ -55,6 +66,7 @@ TraceNext ==
                                              "C10: the consensus engine rejects the validator updates: " \o e.what))
            /\ mon' = IF e.ev \in StateEvents THEN [mon EXCEPT !.dead = TRUE] ELSE mon
            /\ pre' = pre
+     /\ miss' = IF e.ev = "Genesis" THEN NoMiss ELSE IF mon.dead THEN miss ELSE MissAfter(e, miss)
      /\ seen' = IF e.ev \in StateEvents /\ HasPost(e) /\ e.ev # "Genesis" /\ ~mon.dead /\ Sane(e.post) /\ pre # NoState
                    THEN seen \cup Witness(e, pre, e.post) ELSE seen
   /\ TLCSet(1, viol') /\ TLCSet(2, l') /\ TLCSet(3, seen')
